@@ -486,8 +486,27 @@ int main()
             {
                 std::vector<const char*> argv;
                 argv.push_back("prog");
+                // half of the calls with short tokens (in runs of four) hand over a REUSED LINE BUFFER, as a shell or a REPL
+                // does: the argv[i] of consecutive calls have the same addresses and different contents
+                static char arena[64][64];
+                static unsigned long parse_calls = 0;
+                bool small = toks.size() < 64;
                 for (auto& t : toks)
-                    argv.push_back(t.c_str());
+                    small = small && t.size() < 63;
+                if (small && ((parse_calls++ / 4) % 2 == 1)) // four calls from the heap, four from the buffer, ...
+                {
+                    for (std::size_t i = 0; i < toks.size(); ++i)
+                    {
+                        std::memcpy(arena[i], toks[i].data(), toks[i].size());
+                        arena[i][toks[i].size()] = 0;
+                        argv.push_back(arena[i]);
+                    }
+                }
+                else
+                {
+                    for (auto& t : toks)
+                        argv.push_back(t.c_str());
+                }
                 argv.push_back(nullptr);
                 e = guarded([&] {
                     st.last.emplace(st.p->parse(static_cast<int>(argv.size()) - 1, argv.data()));
